@@ -216,6 +216,11 @@ func (w *world) dropPeer(id string) { w.log(map[string]interface{}{"k": "drop", 
 type quiesceErr string
 
 func (w *world) onLoop(fn func()) {
+	// a first barrier: once the loop has taken it, every earlier event has been processed completely, so the closure can
+	// only run inside the enqueue of a barrier (this one or the next), never inside the enqueue of a real delivery
+	if err := w.f.Enqueue(barrier, w.bar); err != nil {
+		panic(quiesceErr("barrier refused: " + err.Error()))
+	}
 	done := make(chan struct{})
 	w.mu.Lock()
 	w.pending = func() { fn(); close(done) }
@@ -241,7 +246,7 @@ func (w *world) settle() rf.VerifState {
 	deadline := time.Now().Add(20 * time.Second)
 	for i := 0; ; i++ {
 		st := w.snap()
-		if st.QueueSize == len(st.Queued) {
+		if st.QueueSize >= len(st.Queued) { // an import that was started keeps its queued entry but has left the priority queue
 			return st
 		}
 		if time.Now().After(deadline) {
@@ -253,6 +258,18 @@ func (w *world) settle() rf.VerifState {
 			time.Sleep(200 * time.Microsecond) // polling interval only
 		}
 	}
+}
+
+// nextWanted is the lowest block of the main chain that is not known yet (0 when the chain is complete).
+func (w *world) nextWanted() int {
+	w.mu.Lock()
+	defer w.mu.Unlock()
+	for id := 1; id <= w.n; id++ {
+		if !w.known[w.blocks[id].Hash()] {
+			return id
+		}
+	}
+	return 0
 }
 
 func (w *world) heightNow() uint64 {
@@ -457,15 +474,15 @@ func (w *world) apply(op *Op) rf.VerifState {
 
 // complete: the honest peer announces the next block of the chain, the timer fires, the peer delivers it
 func (w *world) complete() rf.VerifState {
-	st := w.settle()
-	for try := 0; try < 3*w.n+3 && int(w.heightNow()) < w.n; try++ {
-		next := int(w.heightNow()) + 1
+	w.settle()
+	for try := 0; try < 3*w.n+3 && w.nextWanted() != 0; try++ {
+		next := w.nextWanted()
 		w.notify(honest, next, "true")
 		w.settle()
 		w.wave()
 		w.deliver(honest, next, true)
-		st = w.settle()
-		if int(w.heightNow()) < next {
+		w.settle()
+		if w.nextWanted() == next {
 			w.expire()
 		}
 	}
